@@ -648,6 +648,69 @@ def gen_arp():
              "def netId (ip mask : Nat) : Nat := ip &&& mask",
              "end Elvis.Gen.Arp", ""]
     write_if_changed("Arp.lean", "\n".join(lines))
+def _one(pattern, src, what, path):
+    m = re.findall(pattern, src)
+    if len(m) != 1:
+        raise ExtractError(f"{what}: expected exactly one match of /{pattern}/ in {os.path.relpath(path, REPO)}, found {len(m)}")
+    return m[0]
+
+
+def _int(lit):
+    return int(lit.replace("_", ""), 0)
+
+
+def stack_consts():
+    """C04/C05: constants and literal sites of the demux path and of the link."""
+    out = []
+
+    def const(lean, value):
+        out.append("def %s : Nat := %d" % (lean, value))
+
+    p = os.path.join(CORE, "protocols", "ipv4", "ipv4_address.rs")
+    src = strip_comments(read(p))
+    for name, lean in (("CURRENT_NETWORK", "ipv4CurrentNetwork"), ("SUBNET", "ipv4SubnetBroadcast")):
+        g = _one(r"pub const %s: Self = Self\(\[(\d+)u8, (\d+), (\d+), (\d+)\]\);" % name, src, name, p)
+        const(lean, int.from_bytes(bytes(int(x) for x in g), "big"))
+    p = os.path.join(CORE, "protocols", "udp", "udp_parsing.rs")
+    const("udpHeaderOctets", _int(_one(r"const HEADER_OCTETS: u16 = (\w+);", strip_comments(read(p)), "HEADER_OCTETS", p)))
+    p = os.path.join(CORE, "protocols", "udp.rs")
+    src = strip_comments(read(p))
+    const("udpDemuxStrip", _int(_one(r"message\.remove_front\((\w+)\);", src, "Udp::demux header strip", p)))
+    # the wildcard key of Udp::demux is built from CURRENT_NETWORK and the port of the datagram
+    _one(r"let any_listen_id = Endpoint \{\s*address: Ipv4Address::(CURRENT_NETWORK),\s*port: endpoints\.local\.port,\s*\};", src, "Udp::demux wildcard key", p)
+    _one(r"Endpoint::new\(ipv4_header\.destination, udp_header\.destination\),\s*Endpoint::new\(ipv4_header\.(source), udp_header\.source\),", src, "Udp::demux endpoints from headers", p)
+    _one(r"socket\.address,\s*machine,\s*ipv4::ProtocolNumber::(UDP),", src, "Udp::listen -> Ipv4::listen(UDP)", p)
+    p = os.path.join(CORE, "protocols", "ipv4.rs")
+    src = strip_comments(read(p))
+    const("ipv4DemuxStripFactor", _int(_one(r"message\.remove_front\(header\.ihl as usize \* (\w+)\);", src, "Ipv4::demux header strip", p)))
+    udp_no = _int(_one(r"UDP = (\d+),", src, "ProtocolNumber::UDP", p))
+    const("ipv4ProtoUdp", udp_no)
+    if _int(_one(r"(\d+) => ProtocolNumber::UDP,", src, "ProtocolNumber::from UDP", p)) != udp_no:
+        raise ExtractError("ProtocolNumber::from(u8) does not map the UDP number to UDP")
+    _one(r"\.get\(&\(Ipv4Address::(CURRENT_NETWORK), protocol_no\)\)", src, "Ipv4::demux wildcard key", p)
+    p = os.path.join(CORE, "protocols", "ipv4", "ipv4_parsing.rs")
+    const("ipv4BaseWords", _int(_one(r"const BASE_WORDS: u8 = (\w+);", strip_comments(read(p)), "BASE_WORDS", p)))
+    p = os.path.join(CORE, "network.rs")
+    src = strip_comments(read(p))
+    const("broadcastMac", _int(_one(r"pub const BROADCAST_MAC: Mac = (\w+);", src, "BROADCAST_MAC", p)))
+    bits = {"u8": 8, "u16": 16, "u32": 32, "u64": 64}
+    const("mtuBits", bits[_one(r"pub type Mtu = (u\d+);", src, "type Mtu", p)])
+    const("macBits", bits[_one(r"pub type Mac = (u\d+);", src, "type Mac", p)])
+    _one(r"mtu: mtu\.unwrap_or\(Mtu::(MAX)\),", src, "default MTU", p)
+    out.append("def mtuDefault : Nat := 2 ^ mtuBits - 1")
+    # transmission time: len * 10^9 / thr + carry nanoseconds, slept in whole milliseconds,
+    # remainder carried to the next frame
+    const("txNsPerSec", _int(_one(r"let ns = delivery\.message\.len\(\) as u128 \* (\w+) / throughput\.0 as u128\s*\+ \*carry as u128;", src, "throughput transmission time", p)))
+    ns_per_ms = _int(_one(r"\*carry = \(ns % (\w+)\) as u64;", src, "throughput carry", p))
+    if _int(_one(r"\(ns / (\w+)\) as u64", src, "throughput milliseconds", p)) != ns_per_ms:
+        raise ExtractError("throughput wait: divisor of the sleep and modulus of the carry differ")
+    const("txNsPerMs", ns_per_ms)
+    _one(r"sleep\(Duration::from_(millis)\(ms\)\)\.await;", src, "throughput wait unit", p)
+    _one(r"if throughput\.0 > 0 \{\s*self\.throughput_permit\.(notified)\(\)\.await;", src, "permit taken before the transmission", p)
+    _one(r"sleep\(Duration::from_millis\(ms\)\)\.await;\s*self\.throughput_permit\.(notify_one)\(\);", src, "permit released after the transmission", p)
+    p = os.path.join(CORE, "protocols", "pci", "pci_session.rs")
+    _one(r"if message\.len\(\) (>) self\.network\.mtu as usize \{\s*return Err\(SendError::Mtu\(self\.network\.mtu\)\);", strip_comments(read(p)), "send_pci MTU check", p)
+    return out
 
 
 def main():
@@ -662,6 +725,8 @@ def main():
     # C11: reassembly timer lower bound (segment.rs `const TLB: u8 = 15;`)
     tlb = const_u(os.path.join(CORE, "protocols", "ipv4", "reassembly", "segment.rs"), "TLB", "u8")
     consts += ["/-- reassembly/segment.rs `TLB` (timer lower bound, seconds) -/", f"def TLB : Nat := {tlb}"]
+    consts = ["-- GENERATED from /repo sources by tools/extract.py on every check; do not edit", "namespace Elvis.Gen"]
+    consts += stack_consts()
     consts += ["end Elvis.Gen", ""]
     write_if_changed("Consts.lean", "\n".join(consts))
 
